@@ -20,6 +20,7 @@ META = {
     "trusted_base": ["std::sync::Arc / Weak counting", "readlock(-tokio): SharedReadLock is one Arc; read_count = strong - 1", "rustc MIR construction"],
     "assumptions": [],
 }
+META["explanation"] += " R19.3 also requires all construction sites of one subscriber-state type to store the same number of owned references (a clone that owns fewer, e.g. a lazily boxed lock future, makes the counts depend on the handles' history)."
 
 SH = "shared::SharedObservable<"
 
@@ -59,16 +60,38 @@ def r19_1(ctx, counter):
                 ok = root.name in ("new", "new_async", "default", "into_shared")
                 ctx.verdict(ok, "R19.1", root, "fresh-family-only-in-constructors", b.line_at((blk, 10 ** 6)), "`%s` starts a new family (fresh owner counter)" % root.name,
                             "`%s` builds its SharedObservable through the family constructor, i.e. with a fresh owner counter: handles of one observable then count separately (observable_count is wrong, subscriber_count counts sibling handles as subscribers)" % root.path)
+    # construction sites: judged in the enclosing function with closures of `map` / `and_then` / `then` .. desugared and
+    # inlined (the closure's parameter is then the payload of the upgraded / cloned handle), else in the closure itself
+    seen_spans = set()
+
+    def span_key(s_):
+        sp = s_.get("span") or {}
+        return (sp.get("file"), sp.get("line"), sp.get("col"))
+
+    def judge(f, b, own_closure):
+        nonlocal n
         for loc, s in b.iter_stmts():
-            if s["k"] == "assign" and s["rv"]["k"] == "agg" and s["rv"].get("adt") == "shared::SharedObservable" and f is not fam:
-                for name, op in zip(s["rv"]["fields"], s["rv"]["ops"]):
-                    n += 1
-                    e = b.expr_of_op(op)
-                    src = find_all(e, lambda x: x[0] == "call" and ecall_matches(x, r"Clone>?::clone$|Arc::<.*>::clone$|Weak::<.*>::upgrade$"))
-                    good = [c for c in src if c[3] and mentions_field(c[3][0], name) and contains(c[3][0], lambda y: y[0] == "param" and y[1] == 1)]
-                    fresh = find_all(e, lambda x: x[0] == "call" and ecall_matches(x, r"Arc::<.*>::new$|Default>?::default$"))
-                    ctx.verdict(bool(good) and not fresh, "R19.1", f, "field-from-same-family:%s" % name, b.line_at(loc), "`%s` = clone/upgrade of self.%s" % (name, name),
-                                "`%s` builds a SharedObservable whose `%s` is `%s`, not a clone/upgrade of the same field of the existing handle" % (f.path, name, fmt(e, 4)))
+            if not (s["k"] == "assign" and s["rv"]["k"] == "agg" and s["rv"].get("adt") == "shared::SharedObservable") or f is fam:
+                continue
+            if own_closure and span_key(s) in seen_spans:
+                continue
+            seen_spans.add(span_key(s))
+            for name, op in zip(s["rv"]["fields"], s["rv"]["ops"]):
+                n += 1
+                e = b.expr_of_op(op)
+                src = find_all(e, lambda x: x[0] == "call" and ecall_matches(x, r"Clone>?::clone$|Arc::<.*>::clone$|Weak::<.*>::upgrade$"))
+                good = [c for c in src if c[3] and mentions_field(c[3][0], name) and contains(c[3][0], lambda y: y[0] == "param" and y[1] == 1)]
+                fresh = find_all(e, lambda x: x[0] == "call" and ecall_matches(x, r"Arc::<.*>::new$|Default>?::default$"))
+                opaque = own_closure and contains(e, lambda y: y[0] == "param" and y[1] >= 2) and not fresh
+                ok = bool(good) and not fresh
+                ctx.verdict(None if (not ok and opaque) else ok, "R19.1", root_fn(F, f), "field-from-same-family:%s" % name, b.line_at(loc), "`%s` = clone/upgrade of self.%s" % (name, name),
+                            "`%s` builds a SharedObservable whose `%s` is `%s`, not a clone/upgrade of the same field of the existing handle" % (f.path, name, fmt(e, 4)))
+    for f in F.find(crate=EY):
+        if f.built and f.kind != "closure":
+            judge(f, inl(F, f, fam, desugar=True, tag="r19.1") or f.built, False)
+    for f in F.find(crate=EY):
+        if f.built and f.kind == "closure":
+            judge(f, f.built, True)
     ctx.floor("R19.1", n, 7)
 
 
@@ -122,6 +145,7 @@ HANDLE_TY = r"SharedReadLock<"
 def r19_3(ctx):
     F = ctx.facts
     n = 0
+    per_type = {}
     for f in F.find(crate=EY):
         b = f.built
         if not b:
@@ -150,12 +174,31 @@ def r19_3(ctx):
                     owned += 0
                 owned += len(clones)
             where = b.line_at(loc)
+            per_type.setdefault(s["rv"].get("adt"), []).append((owned, f, where))
             if owned <= 1:
                 ctx.holds("R19.3", f, "strong-refs-per-subscriber", where, "the constructed subscriber stores %d owned state handle(s)" % owned)
             else:
-                ctx.violated("R19.3", f, "strong-refs-per-subscriber=%d" % owned, where,
+                # keyed by the constructed type, not by the constructing function: merging the constructors into a helper
+                # moves the site but not the finding
+                ctx.violated("R19.3", "type:" + s["rv"].get("adt"), "strong-refs-per-subscriber=%d" % owned, where,
                              "`%s` stores %d owned handles of the shared state in one subscriber (the handle itself and a boxed `lock_owned()` future owning a clone): "
                              "every such subscriber adds %d to the strong count, so subscriber_count reports %d per subscriber and strong_count is not the sum" % (f.path, owned, owned, owned))
+    # the counts are a function of the live handles only if every way of making a handle of one kind stores the same number
+    # of references (a clone that owns fewer than the original - e.g. a lock future boxed lazily at the first poll - makes
+    # strong_count / subscriber_count depend on the handles' history)
+    for adt, sites in sorted(per_type.items()):
+        sites = [x for x in sites if x[0] >= 1]   # 0 = the handle is made by a generic `L::SubscriberState::clone` the count does not see
+        counts = sorted({c for c, _, _ in sites})
+        if not sites:
+            continue
+        if len(counts) > 1:
+            lo = [x for x in sites if x[0] == counts[0]][0]
+            hi = [x for x in sites if x[0] == counts[-1]][0]
+            ctx.violated("R19.3", "type:" + adt, "strong-refs-uniform", lo[2],
+                         "handles of type `%s` are built with %d owned state reference(s) in `%s` but with %d in `%s`: the reference counts then depend on how (and when) a subscriber was made, not only on how many are alive" % (
+                             adt, lo[0], lo[1].path, hi[0], hi[1].path))
+        else:
+            ctx.holds("R19.3", "type:" + adt, "strong-refs-uniform", sites[0][2], "all %d construction site(s) store %d owned reference(s)" % (len(sites), counts[0]))
     ctx.floor("R19.3", n, 2 if not ctx.has_async else 4)
 
 
